@@ -443,6 +443,73 @@ def scratch_blocks(m: Macro, env: Dict[str, Any]) -> Dict[str, Tuple[int, int, i
     return out
 
 
+def macro_cfg(m: Macro, skip: Optional[Set[int]] = None) -> Tuple[Optional[int], Dict[int, List[int]]]:
+    """(entry, successors) over the statement indices of a macro body - its own control flow as far as the text shows it:
+    fall-through; the jump part of a raw op / a three-operand wflip when it names a local label (an offset `label+k*dw` goes to the
+    label); a local code label handed to a macro call or rep is a possible branch target (the call may also fall through).
+    -1 is the end of the macro; jumps to parameters / global labels leave the macro (no edge). `skip`: statement indices that are
+    not executed (data declarations) and are passed through."""
+    body = m.body
+    skip = skip or set()
+    stmt_idx = [i for i, op in enumerate(body) if op[0] != 'label' and i not in skip]
+    END = -1
+
+    def nxt_of(i: int) -> int:
+        later = [j for j in stmt_idx if j > i]
+        return later[0] if later else END
+    label_at: Dict[str, int] = {}
+    for i, op in enumerate(body):
+        if op[0] == 'label':
+            short = op[1].split('.')[-1]
+            # a label followed by a data declaration is a data cell, not a branch target
+            if i + 1 < len(body) and (i + 1) in skip:
+                continue
+            label_at[short] = nxt_of(i)
+    params = set(m.params)
+    # a label whose code returns through a register (`stl.fret`) is a local subroutine: a callee that is handed the label calls
+    # it when and as often as it likes, so it is not a branch target of this macro's own flow (its body is not on any path here)
+    subroutine: Set[str] = set()
+    for L, at in label_at.items():
+        j = at
+        for _ in range(12):
+            if j == END or j not in stmt_idx:
+                break
+            opj = body[j]
+            if opj[0] == 'call' and opj[1] == 'stl.fret':
+                subroutine.add(L)
+                break
+            if opj[0] == 'fj' and opj[2] is not None:
+                break
+            j = nxt_of(j)
+
+    def target(e: Any, as_argument: bool = False) -> List[int]:
+        ids = _expr_ids(e, set()) - {'w', 'dw', 'dbit'}
+        lab = [x.split('.')[-1] for x in ids if x.split('.')[-1] in label_at and x.split('.')[-1] not in params]
+        if as_argument and lab and lab[0] in subroutine:
+            return []
+        return [label_at[lab[0]]] if len(lab) == 1 and len(ids) == 1 else []
+    succ: Dict[int, List[int]] = {}
+    for i in stmt_idx:
+        op = body[i]
+        out: List[int] = []
+        if op[0] == 'fj':
+            if op[2] is None:
+                out = [nxt_of(i)]
+            else:
+                out = target(op[2])          # a jump elsewhere leaves the macro
+        elif op[0] == 'wflip':
+            out = target(op[1][2]) if len(op[1]) > 2 else [nxt_of(i)]
+        elif op[0] in ('call', 'rep'):
+            args = op[2] if op[0] == 'call' else op[4]
+            out = [nxt_of(i)]
+            for a in args:
+                out += [t for t in target(a, True) if t not in out]
+        else:
+            out = [nxt_of(i)]
+        succ[i] = out
+    return (stmt_idx[0] if stmt_idx else None), succ
+
+
 def rule_scratch(rep: Report, stl: Stl, prop: str, files: List[str], floor: int, w: int = 64) -> None:
     rule = f'{prop}.SCRATCH'
     rep.rule(rule, 'macro code is re-executed (loops, functions), so a macro-local scratch cell keeps its last value: for every local '
@@ -533,6 +600,38 @@ def rule_scratch(rep: Report, stl: Stl, prop: str, files: List[str], floor: int,
             for L, c in first_cls.items():
                 if c not in ('assign', 'update'):
                     verdict.setdefault((L, 'not-judged'), [])
+            # (every-path) a cell whose first statement in text order is a plain assignment is meant to be reset on entry: that
+            # holds on EVERY path through the macro's own control flow - no statement that touches the cell is reachable from the
+            # entry without passing an assignment of it (a compile-time or run-time jump over the reset leaves the last value)
+            entry, succ = macro_cfg(m, set(cells.values()))
+            reset = {L for L, c in first_cls.items() if c == 'assign'}
+            if entry is not None and reset:
+                touch: Dict[int, Dict[str, Optional[str]]] = {}
+                for idx, op in enumerate(m.body):
+                    if op[0] == 'label' or idx in cells.values():
+                        continue
+                    classes = _effect_on(stl, op, tracked, env)
+                    for via in tracked:
+                        b, base, _size = layout[via]
+                        for L in {owner[g] for g in ((b, base + o // dw) for o in touches[idx][via]) if g in owner}:
+                            if L in reset:
+                                touch.setdefault(idx, {})[L] = classes.get(via) if via == L else touch.get(idx, {}).get(L)
+                for L in sorted(reset):
+                    verdict.setdefault((L, 'every-path'), [])
+                    # forward reachability over 'not yet assigned' states
+                    seen_, work_ = set(), [entry]
+                    while work_:
+                        i_ = work_.pop()
+                        if i_ in seen_ or i_ == -1:
+                            continue
+                        seen_.add(i_)
+                        if L in touch.get(i_, {}):
+                            if touch[i_][L] == 'assign':
+                                continue              # assigned: paths through here are fine
+                            verdict[(L, 'every-path')].append(f'{dict(sz)}: line {m.body[i_][-1]} `{_stmt_name(m.body[i_])}` uses {L} and is reachable from the '
+                                                              f'macro entry without passing its reset')
+                            continue
+                        work_.extend(succ.get(i_, []))
         if not evaluated:
             rep.uncovered.append(f'{key[0]}/{key[1]}: scratch cells {sorted(cells)} (no evaluable instantiation)')
             continue
@@ -1050,6 +1149,287 @@ def rule_jumpword_restore(rep: Report, stl: Stl, prop: str, files: List[str], fl
             mine = sorted({b for b in bad if f"'{p_}'" in b or f'[{p_!r}]' in b or p_ in b})
             rep.check(not mine, rule, f'{key[0]}/{key[1]}:{p_}+w -> {l}', mine[0] if mine else f'restored on every path ({len(seen)} states explored)',
                       f'{m.file}:{m.line} {m.name}', expected='the same wflip again before any exit')
+
+
+# ---------------------------------------------------------------- FJ.BYTE-CLASS (input parsers: which bytes go where)
+
+_CHAR = r"'(\\?.)'"
+
+
+def _char_value(c: str) -> Optional[int]:
+    if len(c) == 1:
+        return ord(c)
+    return {'\\n': 10, '\\0': 0, '\\t': 9, '\\r': 13, '\\\\': 92, "\\'": 39}.get(c)
+
+
+def doc_char_sets(m: Macro) -> List[Tuple[str, frozenset]]:
+    """the character classes a macro's doc block names: quoted ranges `'0'..'9'` / `'0'-'9'`, quoted single characters `'-'`,
+    `'\\n'`, and the unquoted `0-9,a-f,A-F` list after the word `supports`."""
+    out: List[Tuple[str, frozenset]] = []
+    for line in m.doc:
+        rest = line
+        for a, b in re.findall(_CHAR + r"\s*(?:\.\.|-)\s*" + _CHAR, line):
+            va, vb = _char_value(a), _char_value(b)
+            if va is not None and vb is not None and va <= vb:
+                out.append((f"'{a}'..'{b}'", frozenset(range(va, vb + 1))))
+        rest = re.sub(_CHAR + r"\s*(?:\.\.|-)\s*" + _CHAR, ' ', rest)
+        for a in re.findall(_CHAR, rest):
+            va = _char_value(a)
+            if va is not None:
+                out.append((f"'{a}'", frozenset([va])))
+        sm = re.search(r'supports\s+([0-9A-Za-z,\- ]+)', line)
+        if sm:
+            for a, b in re.findall(r'([0-9A-Za-z])-([0-9A-Za-z])', sm.group(1)):
+                if ord(a) <= ord(b):
+                    out.append((f'{a}-{b}', frozenset(range(ord(a), ord(b) + 1))))
+    seen: Set[frozenset] = set()
+    uniq = []
+    for t, v in out:
+        if v not in seen:
+            seen.add(v)
+            uniq.append((t, v))
+    return uniq
+
+
+def rule_byte_class(rep: Report, stl: Stl, prop: str, files: List[str], floor: int, w: int = 64) -> None:
+    rule = f'{prop}.BYTE-CLASS'
+    rep.rule(rule, 'an input parser classifies each byte it reads by nibble tests (`hex.if_flags cell, mask, l0, l1` on the two hexes of '
+             'the byte). Abstract interpretation of the macro\'s own control flow over the finite domain of the tested cells (16 values '
+             'each; an input statement sets its cells to "any value", a nibble test splits the set by its mask): for every place a '
+             'byte is read, the 256 byte values are partitioned by the first non-test statement (or exit) they reach. Every class '
+             'other than the largest ("anything else") must be exactly a union of character classes the macro\'s doc block names '
+             '(a class that continues in raw table code must contain every documented class it meets); no documented class is '
+             'split; every documented range is accepted at some read of the macro or of a parser it calls', floor)
+    dw = 2 * w
+    accepted: Dict[Tuple[str, int], List[frozenset]] = {}
+    docs: Dict[Tuple[str, int], List[Tuple[str, frozenset]]] = {}
+    callees: Dict[Tuple[str, int], Set[Tuple[str, int]]] = {}
+    for key, m in sorted(stl.macros.items()):
+        if m.file not in files:
+            continue
+        body = m.body
+        tests = [i for i, op in enumerate(body) if op[0] == 'call' and op[1] == 'hex.if_flags' and len(op[2]) == 4]
+        if not tests:
+            continue
+        env: Dict[str, Any] = dict(base_env(w))
+        for q in m.params:
+            env[q] = {q: 1}
+
+        def cell_of(e: Any) -> Optional[Tuple[str, int]]:
+            try:
+                lf = ev(e, env)
+            except (OpaqueValue, NeedConcrete, AnalysisError):
+                return None
+            syms = [k for k in lf if k != '' and lf[k] != 0]
+            if len(syms) != 1 or lf[syms[0]] != 1 or lf.get('', 0) % dw:
+                return None
+            return syms[0].split('.')[-1], lf.get('', 0) // dw
+        cells = sorted({c for i in tests for c in [cell_of(body[i][2][0])] if c is not None})
+        if not cells or len(cells) > 2:
+            rep.uncovered.append(f'{key[0]}/{key[1]}: nibble tests on {len(cells)} cells (only one byte = two cells is modelled)')
+            continue
+        cidx = {c: k for k, c in enumerate(cells)}
+        data_decl = set(scratch_cells(m).values())
+        stmt_idx = [i for i, op in enumerate(body) if op[0] != 'label' and i not in data_decl]
+        END = -1
+
+        def nxt_of(i: int) -> int:
+            later = [j for j in stmt_idx if j > i]
+            return later[0] if later else END
+        label_at: Dict[str, int] = {}
+        for i, op in enumerate(body):
+            if op[0] == 'label' and not (i + 1 in data_decl):
+                label_at[op[1].split('.')[-1]] = nxt_of(i)
+
+        def target(e: Any) -> Any:
+            ids = {x.split('.')[-1] for x in _expr_ids(e, set())} - {'w', 'dw', 'dbit'}
+            if len(ids) == 1:
+                nm = next(iter(ids))
+                if nm in m.params:
+                    return ('exit', nm)
+                if nm in label_at:
+                    t = label_at[nm]
+                    return ('exit', '<end>') if t == END else t
+            return ('exit', '<elsewhere>')
+        TOP = frozenset(itertools.product(range(16), repeat=len(cells)))
+
+        def havoc(state: frozenset, which: List[int]) -> frozenset:
+            keep = [k for k in range(len(cells)) if k not in which]
+            proj = {tuple(t[k] for k in keep) for t in state}
+            out = set()
+            for pr in proj:
+                for vals in itertools.product(range(16), repeat=len(which)):
+                    t = [0] * len(cells)
+                    for k, v in zip(keep, pr):
+                        t[k] = v
+                    for k, v in zip(which, vals):
+                        t[k] = v
+                    out.add(tuple(t))
+            return frozenset(out)
+
+        def written_cells(op: Tuple[Any, ...]) -> List[int]:
+            """tracked cells a (non-test) statement may write, in the order the input arrives (low nibble first)"""
+            if op[0] not in ('call', 'rep'):
+                ids = set()
+                for part in op[1:-1]:
+                    if isinstance(part, (tuple, list)):
+                        for e in (part if isinstance(part, list) else [part]):
+                            ids |= {x.split('.')[-1] for x in _expr_ids(e, set())} if isinstance(e, tuple) else set()
+                return [cidx[c] for c in cells if c[0] in ids]
+            name, args = (op[1], op[2]) if op[0] == 'call' else (op[3], op[4])
+            cal = stl.macros.get((name, len(args)))
+            eff = doc_effects(cal) if cal is not None else {}
+            out: List[int] = []
+            for pos, a in enumerate(args):
+                c0 = cell_of(a)
+                if c0 is None:
+                    continue
+                q = cal.params[pos] if cal is not None and pos < len(cal.params) else None
+                if q is not None and eff.get(q) == 'read':
+                    continue
+                if name == 'hex.input_hex' and len(args) == 1:
+                    hit = [c for c in cells if c == c0]
+                elif name == 'hex.input' and len(args) == 1:
+                    hit = [c for c in cells if c[0] == c0[0] and c[1] in (c0[1], c0[1] + 1)]
+                else:
+                    hit = [c for c in cells if c[0] == c0[0]]
+                out += [cidx[c] for c in sorted(hit, key=lambda c: c[1]) if cidx[c] not in out]
+            return out
+        # exploration: (statement, state, read tag). the tag (first input statement of the group, cells in arrival order) is set
+        # by an input and cleared by the first statement that is neither an input nor a test: that statement is the byte's target
+        sites: Dict[Tuple[int, Tuple[int, ...]], Dict[Any, Set[int]]] = {}
+        seen: Set[Tuple[Any, frozenset, Any]] = set()
+        work: List[Tuple[Any, frozenset, Any]] = [(stmt_idx[0] if stmt_idx else END, TOP, None)]
+        steps = 0
+
+        def record(tag: Any, tgt: Any, state: frozenset) -> None:
+            # tag = ('open', cells in arrival order, first input statement)
+            if tag is None or len(tag[1]) != 2:
+                return
+            lo, hi = tag[1]
+            sites.setdefault((tag[2], tag[1]), {}).setdefault(tgt, set()).update(t[lo] | (t[hi] << 4) for t in state)
+        while work and steps < 20000:
+            steps += 1
+            i, state, tag = work.pop()
+            if not state or (i, state, tag) in seen:
+                continue
+            seen.add((i, state, tag))
+            if isinstance(i, tuple) or i == END:
+                record(tag, i if isinstance(i, tuple) else ('exit', '<end>'), state)
+                continue
+            op = body[i]
+            if op[0] == 'call' and op[1] == 'hex.if_flags' and len(op[2]) == 4:
+                c0 = cell_of(op[2][0])
+                try:
+                    mask = conc(ev(op[2][1], env))
+                except (OpaqueValue, NeedConcrete, AnalysisError):
+                    mask = None
+                if c0 in cidx and mask is not None:
+                    k = cidx[c0]
+                    work.append((target(op[2][3]), frozenset(t for t in state if (mask >> t[k]) & 1), tag))
+                    work.append((target(op[2][2]), frozenset(t for t in state if not (mask >> t[k]) & 1), tag))
+                    continue
+            if op[0] == 'fj' and op[1] in (0, None) and op[2] is not None:
+                work.append((target(op[2]), state, tag))          # a plain jump
+                continue
+            wr = written_cells(op)
+            if wr and op[0] in ('call', 'rep'):
+                # consecutive inputs build one byte (low nibble first)
+                if tag is not None:
+                    tag2 = ('open', tuple(list(tag[1]) + [k for k in wr if k not in tag[1]]), tag[2])
+                else:
+                    tag2 = ('open', tuple(wr), i)
+                work.append((nxt_of(i), havoc(state, wr), tag2))
+                continue
+            # an ordinary statement: the target of the byte read before it (if any)
+            if tag is not None:
+                record(tag, ('raw', i) if op[0] in ('fj', 'wflip', 'pad') else i, state)
+            if op[0] in ('fj', 'wflip', 'pad'):
+                continue                                    # raw table code: not followed
+            nxt: List[Any] = [nxt_of(i)]
+            if op[0] in ('call', 'rep'):
+                for a in (op[2] if op[0] == 'call' else op[4]):
+                    ids = {x.split('.')[-1] for x in _expr_ids(a, set())} - {'w', 'dw', 'dbit'}
+                    if len(ids) == 1 and (next(iter(ids)) in label_at):
+                        nxt.append(target(a))
+            for t_ in nxt:
+                work.append((t_, state, None))
+        dsets = doc_char_sets(m)
+        docs[key] = dsets
+        callees[key] = {(op[1], len(op[2])) for op in body if op[0] == 'call'} | {(op[3], len(op[4])) for op in body if op[0] == 'rep'}
+        for (site_stmt, order), cl in sorted(sites.items(), key=lambda t: t[0][0]):
+            line = body[site_stmt][-1]
+            inst = f'{key[0]}/{key[1]}:byte read at line {line}'
+            if len(order) != 2:
+                continue
+            if not dsets:
+                rep.uncovered.append(f'{inst}: the doc block names no character class')
+                continue
+            total = set().union(*cl.values())
+            bad: List[str] = []
+            if len(total) != 256 or sum(len(v) for v in cl.values()) != 256:
+                bad.append(f'the classes do not partition the 256 byte values ({sum(len(v) for v in cl.values())} placed)')
+            default = max(cl, key=lambda t: len(cl[t]))
+
+            def show(vals: Set[int]) -> str:
+                vs = sorted(vals)
+                runs, a = [], None
+                for v in vs + [None]:             # type: ignore[list-item]
+                    if a is None:
+                        a = b = v
+                    elif v is not None and v == b + 1:
+                        b = v
+                    else:
+                        runs.append(f'{a:#04x}' if a == b else f'{a:#04x}-{b:#04x}')
+                        a = b = v
+                return ','.join(runs[:6])
+
+            def tname(t: Any) -> str:
+                if isinstance(t, tuple):
+                    return f'raw code at line {body[t[1]][-1]}' if t[0] == 'raw' else f'exit {t[1]}'
+                return f'line {body[t][-1]} `{_stmt_name(body[t])}`'
+            for tgt, vals in cl.items():
+                if tgt == default:
+                    continue
+                inside = [d for _, d in dsets if d <= vals]
+                meets = [(tx, d) for tx, d in dsets if d & vals]
+                if isinstance(tgt, tuple) and tgt[0] == 'raw':
+                    split = [tx for tx, d in meets if not d <= vals]
+                    if split or not meets:
+                        bad.append(f'bytes {show(vals)} continue in {tname(tgt)} but ' + (f'documented {split} is only partly among them' if split else 'no documented class is among them'))
+                    else:
+                        accepted.setdefault(key, []).extend(d for _, d in meets)
+                    continue
+                union = set().union(*inside) if inside else set()
+                if union != vals:
+                    bad.append(f'bytes {show(vals)} go to {tname(tgt)}: not a union of the documented classes {[tx for tx, _ in dsets]}'
+                               + (f' (extra: {show(vals - union)})' if vals - union and union else ''))
+                else:
+                    accepted.setdefault(key, []).extend(inside)
+            for tx, d in dsets:
+                homes = [t for t, vals in cl.items() if d & vals]
+                if len(homes) > 1:
+                    bad.append(f'documented {tx} is split between {[tname(t) for t in homes]}')
+            rep.check(not bad, rule, inst, bad[0] if bad else f'{len(cl)} classes: ' + '; '.join(f'{show(v)} -> {tname(t)}' for t, v in sorted(cl.items(), key=lambda t: len(t[1]))[:3]),
+                      f'{m.file}:{line} {m.name}', expected=f'each class other than "anything else" is a union of {[tx for tx, _ in dsets]}')
+    # every documented range is accepted somewhere: by the macro itself or by a parser it calls
+    def reach(key: Tuple[str, int], seen: Set[Tuple[str, int]]) -> List[frozenset]:
+        if key in seen:
+            return []
+        seen.add(key)
+        out = list(accepted.get(key, []))
+        for c in callees.get(key, set()):
+            out += reach(c, seen)
+        return out
+    for key, dsets in sorted(docs.items()):
+        m = stl.macros[key]
+        for tx, d in dsets:
+            if len(d) < 2:
+                continue
+            got = reach(key, set())
+            rep.check(any(d == a or d <= a for a in got), rule, f'{key[0]}/{key[1]}:documented {tx} is accepted',
+                      f'{tx} is a class of {"this macro or a parser it calls" if any(d <= a for a in got) else "no byte read"}',
+                      f'{m.file}:{m.line} {m.name}', expected='some byte read sends exactly these bytes (or a documented union containing them) to one place')
 
 
 # ---------------------------------------------------------------- FJ.ALIAS-SAFE (documented "works when both operands are the same variable")
